@@ -924,7 +924,8 @@ theorem unrefW_ok {cfg : Cfg} (R : Repaired cfg) {st : St} (inv : SInv gh st) {x
         (∀ (i : Nat), i ∈ dead ∨ i ∈ dropped → Reach st.tree i x ∧ i ≠ x ∨ i = x ∧ i ∈ dead) ∧
         (∀ (i : Nat) (w : Win), LiveW st.tree i w → i ∉ dead → ∃ w', LiveW st'.tree i w') ∧
         PSub st.tree st'.tree ∧
-        ((dead ≠ [] ∨ dropped ≠ []) → ∀ (w : Win), LiveW st.tree x w → w.refcount = 1)) := by
+        ((dead ≠ [] ∨ dropped ≠ []) → ∀ (w : Win), LiveW st.tree x w → w.refcount = 1) ∧
+        (∀ i ∈ dropped, x < i) ∧ (∀ i ∈ dead, ∀ (w' : Win), ¬ LiveW st'.tree i w')) := by
   obtain ⟨xw, hl, hpos⟩ := heldW_spec hh
   have hxlt : x < st.wx.size := by rw [inv.wx_size]; exact hl.lt
   have inv0 : SInvB gh (setX st x { getX st x with appRefs := (getX st x).appRefs - 1 }) [] :=
@@ -1022,7 +1023,14 @@ theorem unrefW_ok {cfg : Cfg} (R : Repaired cfg) {st : St} (inv : SInv gh st) {x
   · intro i w hw hfw
     rw [htree]
     exact hfr i w hw hfw
-  · refine ⟨?_, fun j => ?_, dead, dropped, ?_, ?_, ?_, ?_, ?_, ?_⟩
+  · refine ⟨?_, fun j => ?_, dead, dropped, ?_, ?_, ?_, ?_, ?_, ?_, hdgt, ?_⟩
+    rotate_right
+    · intro i hi w' hlw'
+      rw [htree] at hlw'
+      obtain ⟨w, hw, hf⟩ := invG.pend_freed i hi
+      have hw2 : t'.wins[i]? = some w := hw
+      rw [hlw'.1] at hw2; cases hw2
+      rw [hlw'.2] at hf; cases hf
     · have := (happ x).1
       simp only [if_true] at this
       omega
